@@ -192,7 +192,7 @@ pub fn property() -> Property {
         parts: vec![Box::new(GenPart {
             name: "preview-vs-real",
             rule: "see property rule",
-            cases: (2_000_000, 6_000_000),
+            cases: (2_000_000, 36_000_000),
             fuzz_decode: Some(crate::fuzzdec::c18_case),
             strategy,
             check,
